@@ -1,5 +1,5 @@
 (* C15 — Unpack materialises exactly what a well-formed archive says. *)
-From Slug Require Import Base.Str Base.PathAlg Base.PathLemmas FS.FS FS.FSProofs Slug.Unpack Slug.UnpackSafe Slug.UnpackSpec Slug.RoundTrip.
+From Slug Require Import Base.Str Base.PathAlg Base.PathLemmas FS.FS FS.FSProofs Slug.Unpack Slug.UnpackSafe Slug.UnpackSpec Slug.RoundTrip Slug.LastWins.
 
 (* An archive that lists a tree of regular files, directories and links that stay inside
    ([links_ok_kids]) - every directory before its
@@ -18,6 +18,36 @@ Theorem C15_tree_archive_materialised :
       = (put fs0 (comps_of dst) (Dir pmD (match ks with [] => mtD | _ => None end) (map rp ks)), ROk).
 Proof. exact unpack_tree_entries. Qed.
 Print Assumptions C15_tree_archive_materialised.
+
+(* "The last entry for a path wins even if an earlier one was read-only": a regular-file entry
+   whose path already holds a regular file - whatever its content, permission bits (also none
+   at all) and time, whoever runs Unpack - leaves exactly the entry's content, permissions and
+   time at that path, and nothing else changes; so of any number of entries for one file path,
+   read in order, the last one decides. *)
+Theorem C15_last_file_entry_wins :
+  forall allow fs0 dst, dst_ok dst -> is_dir fs0 = true -> rdir fs0 (comps_of dst) ->
+  forall X pre x d0 pm0 mt0,
+    is_dir X = true -> rdir X pre -> forallb seg_ok (pre ++ [x]) = true ->
+    get X (pre ++ [x]) = Some (File d0 pm0 mt0) ->
+    forall is_root dirs e,
+      e_name e = entry_name (pre ++ [x]) false -> e_type e = ty_reg ->
+      unpack_entry is_root allow (at_dst fs0 (comps_of dst) X) dst dirs e
+      = (at_dst fs0 (comps_of dst)
+           (put X (pre ++ [x]) (File (e_body e) (e_mode e) (Some (sec_to_ns (e_mtime e))))), dirs, None).
+Proof. exact last_file_entry_wins. Qed.
+Print Assumptions C15_last_file_entry_wins.
+
+Theorem C15_last_of_many_file_entries :
+  forall allow fs0 dst is_root pre x,
+    dst_ok dst -> is_dir fs0 = true -> rdir fs0 (comps_of dst) -> forallb seg_ok (pre ++ [x]) = true ->
+    forall es X d0 pm0 mt0 dirs e_last,
+      is_dir X = true -> rdir X pre -> get X (pre ++ [x]) = Some (File d0 pm0 mt0) ->
+      (forall e, In e (es ++ [e_last]) -> e_name e = entry_name (pre ++ [x]) false /\ e_type e = ty_reg) ->
+      unpack_entries is_root allow (at_dst fs0 (comps_of dst) X) dst dirs (es ++ [e_last])
+      = (at_dst fs0 (comps_of dst)
+           (put X (pre ++ [x]) (File (e_body e_last) (e_mode e_last) (Some (sec_to_ns (e_mtime e_last))))), dirs, None).
+Proof. exact last_of_many_file_entries. Qed.
+Print Assumptions C15_last_of_many_file_entries.
 
 (* An entry of a type that cannot be represented (hard link, device, fifo, ...)
    makes Unpack fail with an illegal-slug result; it is never dropped. *)
